@@ -161,15 +161,29 @@ Fixpoint starts_with (p s : str) : bool :=
   | x :: p', y :: s' => (x =? y) && starts_with p' s'
   end.
 
+(* "(" in text *)
+Definition has_open (s : str) : bool := existsb (fun c => c =? 40) s.
+(* CDSCondition.__str__: len(self.sub_conditions) == 1 and "(" not in inner
+   and not isinstance(self.sub_conditions[0], AndCondition) *)
+Definition cds_wraps (subs : list cond) (inner : str) : bool :=
+  match subs with
+  | [sub] => negb (has_open inner) && negb (is_and sub)
+  | _ => false
+  end.
+
 (* the __str__ family.  Conditions.__str__ with one member that is not an AndCondition: a negated group
-   parenthesises the member whenever the member's text starts with "not " (sub_text.startswith("not ")) *)
+   parenthesises the member whenever the member's text starts with "not " (sub_text.startswith("not ")).
+   CDSCondition.__str__ keeps an explicit group around an only member whose text holds no parenthesis
+   (cds((a)) is printed as cds((a)), not as cds(a), which _parse_cds rejects) *)
 Fixpoint show (c : cond) : str :=
   match c with
   | CSingle n name => prefix n ++ name
   | CScore n name s => prefix n ++ codes "minscore(" ++ name ++ codes ", " ++ show_Z s ++ codes ")"
   | CMin n k opts => prefix n ++ codes "minimum(" ++ show_Z k ++ codes ", [" ++ join (codes ", ") (sorted_set opts)
                      ++ codes "])"
-  | CCds n subs => prefix n ++ codes "cds(" ++ join s_or_sep (map show subs) ++ codes ")"
+  | CCds n subs =>
+    let inner := join s_or_sep (map show subs) in
+    prefix n ++ codes "cds(" ++ (if cds_wraps subs inner then codes "(" ++ inner ++ codes ")" else inner) ++ codes ")"
   | CGroup n subs =>
     match subs with
     | [sub] =>
